@@ -22,7 +22,7 @@ from pedal.sandbox.constants import TOOL_NAME
 from pedal.sandbox.feedbacks import runtime_error, EXCEPTION_FF_MAP
 from pedal.sandbox.exceptions import SandboxHasNoFunction, SandboxHasNoVariable
 from pedal.sandbox.timeout import timeout
-from pedal.sandbox.result import SandboxResult
+from pedal.sandbox.result import SandboxResult, unwrap_value
 from pedal.sandbox.tracer import TRACER_STYLES
 
 try:
@@ -37,17 +37,25 @@ except BaseException:
             return False
 
 
-def _contains_non_finite_float(value):
+def _repr_evaluates_back(value):
     """
-    Whether the value is (or is a builtin container holding) ``inf`` or ``nan``,
-    whose ``repr`` is a bare name instead of an evaluable literal.
+    Whether ``repr(value)`` is an expression that evaluates back to an equal
+    value in any namespace: the builtin scalars (but not ``inf`` and ``nan``,
+    whose repr is a bare name) and the builtin containers of them. Instances
+    of other classes - the student's own, ``Decimal``, a ``namedtuple``,
+    functions - have to be handed over as objects instead.
     """
-    if isinstance(value, float):
-        return value != value or value in (float('inf'), float('-inf'))
-    if isinstance(value, (list, tuple, set, frozenset)):
-        return any(_contains_non_finite_float(item) for item in value)
-    if isinstance(value, dict):
-        return any(_contains_non_finite_float(item)
+    kind = type(value)
+    if kind is float:
+        return value == value and value not in (float('inf'), float('-inf'))
+    if kind is complex:
+        return _repr_evaluates_back(value.real) and _repr_evaluates_back(value.imag)
+    if kind in (bool, int, str, bytes, bytearray, range, type(None), type(Ellipsis)):
+        return True
+    if kind in (list, tuple, set, frozenset):
+        return all(_repr_evaluates_back(item) for item in value)
+    if kind is dict:
+        return all(_repr_evaluates_back(item)
                    for pair in value.items() for item in pair)
     return False
 
@@ -766,12 +774,19 @@ class Sandbox:
     def _construct_call(self, function, args, kwargs, args_locals, kwargs_locals,
                         target):
         """ Turn the given strings into an actual function call string. """
+        # A mutable object that is passed more than once must stay one object
+        given = list(args) + list(kwargs.values())
+        shared = {id(value) for value in given
+                  if isinstance(unwrap_value(value), (list, dict, set, bytearray))
+                  and sum(value is other for other in given) > 1}
         str_args = [arg_name if arg_name is not None else
-                    self._make_temporary('arg', str(index), arg_value)
+                    self._make_temporary('arg', str(index), arg_value,
+                                         id(arg_value) in shared)
                     for index, (arg_value, arg_name)
                     in enumerate(zip_longest(args, args_locals))]
         str_kwargs = ["{}={}".format(key,
-                                     self._make_temporary('kwarg', key, value))
+                                     self._make_temporary('kwarg', key, value,
+                                                          id(value) in shared))
                       if key not in kwargs_locals else
                       kwargs_locals[key]
                       for key, value in kwargs.items()]
@@ -796,7 +811,7 @@ class Sandbox:
                 del self.data[key]
         self._temporary_variables.clear()
 
-    def _make_temporary(self, category, name, value):
+    def _make_temporary(self, category, name, value, shared=False):
         """
         Create a temporary variable in the namespace for the given
         category/name. This is used to load arguments into the namespace to
@@ -811,14 +826,17 @@ class Sandbox:
             name (str): A distinctive ID for this variable. The final variable
                 name will be "_temporary_<category>_<name>".
             value: The value for this argument.
+            shared (bool): Whether the very same object is passed for another
+                argument too, so that the function must see one object.
         Returns:
             str: The new name for the temporary variable.
         """
         if isinstance(value, SandboxVariable):
             return value.name
-        if (len(repr(value)) <= self.MAXIMUM_TEMPORARY_LENGTH
-                and not _contains_non_finite_float(value)):
-            return repr(value)
+        actual_value = unwrap_value(value)
+        if (not shared and _repr_evaluates_back(actual_value)
+                and len(repr(actual_value)) <= self.MAXIMUM_TEMPORARY_LENGTH):
+            return repr(actual_value)
         key = '_temporary_{}_{}'.format(category, name)
         if key in self.data:
             self._backup_variables[key] = self.data[key]
